@@ -5,6 +5,18 @@ from inferno.core.infrastructure import Module, RecordTensor
 
 KEEP = []  # RecordTensor only weak-references its owner
 
+# integer dtype of a tensor offset (extra, implementation-only last field of the 'rrt' / 'wrt' operations; the Coq model
+# and the oracle see the same integer offsets whatever the dtype; absent = int64)
+ODT = {"int64": torch.int64, "int32": torch.int32, "int16": torch.int16, "uint8": torch.uint8, "int8": torch.int8}
+
+
+def mk_offs(vals, shape, name):
+    dt = ODT[name]
+    t = torch.tensor(vals, dtype=torch.int64).reshape(shape)
+    if t.numel() and (int(t.min()) < torch.iinfo(dt).min or int(t.max()) > torch.iinfo(dt).max):
+        raise AssertionError(f"harness: offsets {vals} not representable as {name}")
+    return t.to(dt)
+
 
 def enc(t):
     """tensor -> [dtype code, shape, flat values *2]"""
@@ -65,7 +77,7 @@ def apply(rt, op):
         L = r.shape[-1]
         return [4, DTR[r.dtype], list(r.shape[:-1]), [[int(round(2 * float(x))) for x in row] for row in r.reshape(-1, L).tolist()]]
     if k == "rrt":
-        offs = torch.tensor(op[2], dtype=torch.int64).reshape(op[3])
+        offs = mk_offs(op[2], op[3], op[5] if len(op) > 5 else "int64")
         r = rt.readrange(op[1], offs, forward=op[4])
         L = r.shape[-1]
         return [4, DTR[r.dtype], list(r.shape[:-1]), [[int(round(2 * float(x))) for x in row] for row in r.reshape(-1, L).tolist()]]
@@ -78,7 +90,7 @@ def apply(rt, op):
         d, shape, cols = op[1], op[2], op[3]
         L = len(cols[0]) if cols else 0
         obs = (torch.tensor(cols, dtype=torch.float64) / 2).reshape(list(shape) + [L]).to(DT[d])
-        offs = torch.tensor(op[4], dtype=torch.int64).reshape(op[5])
+        offs = mk_offs(op[4], op[5], op[8] if len(op) > 8 else "int64")
         rt.writerange(obs, offs, forward=op[6], inplace=op[7]); return [1]
     raise AssertionError(k)
 
